@@ -41,6 +41,15 @@ def one_kind(kind: str, reps: int, flush_every: int) -> Dict[str, Any]:
             if r % 3 == 2:
                 body.append({"s": "loop", "start": 0, "stop": 2, "step": 1, "form": "ctx", "body": [{"s": "add", "t": fut("A2", c(2)), "o": c(1), "mod": 17}]})
             hist.append({"s": "loop", "start": 0, "stop": 3, "step": 1, "form": "body", "reg": "R0", "body": body})
+        elif kind == "future-indexed-by-future":
+            # the SAME future object, whose index is the value of another array entry, first with no operation open and then
+            # inside open loops (the index has to be loaded into a temporary each time: it may not clobber a live counter)
+            fi = {"k": "fut", "a": "A2", "i": {"k": "fut", "a": "A1", "j": r % 3}}
+            hist.append({"s": "add", "t": fi, "o": c(1), "mod": 19})
+            inner = [{"s": "add", "t": fi, "o": c(2), "mod": 23}]
+            if r % 2:
+                inner = [{"s": "loop", "start": 0, "stop": 2, "step": 1, "form": "ctx", "body": inner}]
+            hist.append({"s": "loop", "start": 0, "stop": 3, "step": 1, "form": "ctx" if r % 4 < 2 else "body", "body": inner})
         elif kind == "foreach":
             hist.append({"s": "foreach", "a": "A1", "enum": bool(r % 2), "body": [{"s": "add", "t": fut("A2", lv(1)), "o": fut("A1", lv(1)), "mod": 7}]})
         elif kind == "until":
@@ -49,6 +58,9 @@ def one_kind(kind: str, reps: int, flush_every: int) -> Dict[str, Any]:
             hist.append({"s": "until", "max": 2, "t": fut(f"A{na}", c(0)), "v": 0, "cleanup": [],
                          "body": [{"s": "qubit", "h": f"Q{nq}"}, {"s": "meas", "q": f"Q{nq}", "inplace": False, "into": {"k": "new", "h": f"A{na}"}}]})
             meas += 2
+        elif kind == "add-constants":
+            # every small constant, zero included, with and without modulus, on array entries and (below) register futures
+            hist.append({"s": "add", "t": fut("A2", c(r % 3)), "o": c(0 if r % 2 == 0 else r % 4), "mod": -1 if r % 4 != 3 else 29})
         elif kind == "add-future":
             hist.append({"s": "add", "t": fut("A2", c(r % 3)), "o": fut("A1", c((r + 1) % 3)), "mod": 5 if r % 2 else -1})
         elif kind == "measure-array":
@@ -99,7 +111,7 @@ def long_history(rng: random.Random, nops: int, flush_every: int) -> Dict[str, A
     return {"history": hist, "meas": [rng.randrange(2) for _ in range(g.meas_used + 8)], "kind": "mixed"}
 
 
-KINDS = ["ez", "nz", "eq", "ne", "lt", "ge", "if-two-futures", "loop", "loop-named-register", "foreach", "until", "add-future", "measure-array", "measure-register", "nested", "empty-bodies"]
+KINDS = ["ez", "nz", "eq", "ne", "lt", "ge", "if-two-futures", "loop", "loop-named-register", "foreach", "until", "add-constants", "add-future", "future-indexed-by-future", "measure-array", "measure-register", "nested", "empty-bodies"]
 
 
 EPR_KINDS = ["create_keep", "create_keep_with_info", "recv_keep", "create_keep_sequential", "recv_keep_sequential", "create_context", "recv_context",
